@@ -123,11 +123,29 @@ pub fn gen_program(rng: &mut Rng, tier: Tier) -> Program {
     let kernel = rng.chance(0.4);
     let dim = if kernel || rng.chance(0.55) { 2 } else { 3 };
     let init = if kernel {
-        let kinds = rand_kinds_kernels(rng);
+        let kinds = if rng.chance(0.5) { 0 } else { rand_kinds_kernels(rng) };
         let tri = rng.chance(0.6);
         kernel_state(rng, kinds, tri, 2)
     } else {
-        gen_init(rng, dim, Flavour::Sews, tier)
+        let mut s = gen_init(rng, dim, Flavour::Sews, tier);
+        if rng.chance(0.5) {
+            // no user kinds (their weight laws reject merges of valueless cells, which makes
+            // most multi-operation programs fail for reasons unrelated to composition)
+            s.kinds = 0;
+            for a in s.attrs.iter_mut() {
+                a.clear();
+            }
+        }
+        if rng.chance(0.7) {
+            // fully embedded: every vertex has coordinates
+            let pv = s.partition(0);
+            for d in 1..s.n() as u32 {
+                if !s.unused[d as usize] && pv[d as usize] == d && s.vtx[d as usize].is_none() {
+                    s.vtx[d as usize] = Some(rand_point(rng, s.dim));
+                }
+            }
+        }
+        s
     };
     let order = rand_order(rng, init.kinds);
     if dim == 3 && rng.chance(0.25) {
@@ -142,7 +160,7 @@ pub fn gen_program(rng: &mut Rng, tier: Tier) -> Program {
             return Program { init: t, order, ops };
         }
     }
-    let n_ops = 2 + rng.below(7);
+    let n_ops = 2 + [0, 0, 1, 1, 2, 3, 4, 6][rng.below(8)];
     let mut cur = init.clone();
     let mut ops = vec![];
     let mut uniq = 0u64;
@@ -153,7 +171,8 @@ pub fn gen_program(rng: &mut Rng, tier: Tier) -> Program {
                 Some(o) => o,
             }
         } else {
-            let g = OpGen::new(rng, &cur, 2);
+            let mut g = OpGen::new(rng, &cur, 2);
+            g.p_valid = 0.93;
             if rng.chance(0.7) {
                 let mut o = g.topo(rng);
                 if rng.chance(0.5) {
